@@ -112,6 +112,14 @@ pub(crate) mod verif_list {
             Some(n) => assert!(len > 0 && n as *const N == tab[seq[len - 1]] as *const N, "C20 list: peek_last differs from the model"),
             None => assert!(len == 0, "C20 list: peek_last is None on a non-empty list"),
         }
+        // the mutable observers name the same nodes (they are not used by the crate itself; nothing is written through them here)
+        // (on a bitwise copy of the list header - head and tail pointers - because validate() only has a shared reference)
+        let mut hdr = core::mem::ManuallyDrop::new(core::ptr::read(list as *const LinkedList<u8>));
+        let lm: &mut LinkedList<u8> = &mut *hdr;
+        let fm = lm.peek_first_mut().map(|n| n as *const N);
+        let lmm = lm.peek_last_mut().map(|n| n as *const N);
+        assert!(fm == list.peek_first().map(|n| n as *const N), "C20 list: peek_first_mut differs from peek_first (the front of the deque)");
+        assert!(lmm == list.peek_last().map(|n| n as *const N), "C20 list: peek_last_mut differs from peek_last (the back of the deque)");
     }
 
     fn idx_of(tab: &[*mut N; K], p: *const N) -> usize {
